@@ -283,12 +283,11 @@ where
                 // we use sampling without replacement in [0..m-1] so we can have each k only once as we exit loop before m iterations!
                 let k = self.permut_generator.next(&mut rng);
                 assert!(k < self.m);
-                let inserted =
+                // a refusal at position k says nothing about the other positions : the next (larger) value of this
+                // (element, occurrence) must still be offered to the next position, else the selection depends on arrival order
+                let _inserted =
                     self.min_store
                         .update_with_maxtracker(k, &x, i, &mut self.max_tracker);
-                if !inserted {
-                    break;
-                }
                 // x is growing, so even if last update was possible at slot k, it is possible another value of x
                 // cannot be inserted (if k was last possible index), if no update possible after preceding update, we can exit
                 if !self.max_tracker.is_update_possible(x) {
